@@ -320,6 +320,84 @@ def sql_file_scenario(assign, stats, add):
             B.fresh_db(al)
 
 
+def db_aware_sql_scenario(assign, stats, add):
+    """A raw SQL evolution that is aware of the database it runs on: its
+    SQL (a callable given the cursor) adds a column to the tables that live
+    on the cursor's database and its update_func records the new field for
+    the models that live on the database being simulated.  Each database
+    must end with the routed models of the final project and a stored
+    signature that knows the new field of exactly those models."""
+    from django.db import models
+    from django_evolution.mutations import SQLMutation
+    from django_evolution.signature import FieldSignature
+    from django_evolution.models import Version
+    stats['cases'] += 1
+    project = base_project()
+    final = S.clone(project)
+    for m in final['apps'][0]['models']:
+        m['fields'].append(F('note', 'Char', max_length=10, null=True))
+    replay = {'scenario': 'db-aware-sql', 'assign': assign}
+
+    def sql_func(cursor):
+        return ['ALTER TABLE "va_%s" ADD COLUMN "note" varchar(10) NULL;'
+                % name.lower()
+                for name in sorted(assign) if assign[name] == cursor.db.alias]
+
+    def update_func(simulation):
+        for name in sorted(assign):
+            if assign[name] != simulation.database:
+                continue
+            model_sig = simulation.get_app_sig().get_model_sig(name)
+            if model_sig is not None:
+                model_sig.add_field_sig(FieldSignature(
+                    field_name='note', field_type=models.CharField,
+                    field_attrs={'max_length': 10, 'null': True}))
+    # (computed first: building a reference schema installs other code)
+    wants = {al: fresh_schema(routed_spec(final, assign, al)) for al in DBS}
+    set_route(assign)
+    try:
+        MZ.install(project, evolutions={'va': {'SEQUENCE': [],
+                                               'modules': {}}})
+        for al in DBS:
+            B.fresh_db(al)
+            if not evolve_db(al).ok:
+                return
+        MZ.install(final, evolutions={'va': {'SEQUENCE': ['e1'], 'modules': {
+            'e1': {'MUTATIONS': [SQLMutation('add_notes', [sql_func],
+                                             update_func)]}}}})
+        for al in DBS:
+            other = [x for x in DBS if x != al][0]
+            before_other = B.snapshot(other)
+            res = evolve_db(al)
+            stats['runs'] += 1
+            if B.snapshot(other) != before_other:
+                add('C16|other-database-modified|db-aware-sql', replay,
+                    {'evolving': al})
+            if not res.ok:
+                add('C16|evolve-fails|%s|db-aware-sql' % res.exc_type,
+                    replay, {'db': al, 'error': str(res.exc)[:300]})
+                continue
+            got = O.schema_dump(al, skip=SKIP)
+            if got != wants[al]:
+                add('C16|schema-not-the-routed-models-evolved|db-aware-sql',
+                    replay, {'db': al})
+            sig = Version.objects.using(al).order_by('-id')[0].signature
+            app_sig = sig.get_app_sig('va')
+            missing = [name for name in sorted(assign)
+                       if assign[name] == al and (
+                           app_sig is None or
+                           app_sig.get_model_sig(name) is None or
+                           app_sig.get_model_sig(name).get_field_sig(
+                               'note') is None)]
+            if missing:
+                add('C16|stored-signature-lacks-the-evolved-field|'
+                    'db-aware-sql', replay, {'db': al, 'models': missing})
+    finally:
+        B.ROUTE.clear()
+        for al in DBS:
+            B.fresh_db(al)
+
+
 def flush_scenario(assign, stats, add):
     """Evolve both databases, `flush` the non-default one, then ship an
     evolution touching both sides and evolve each database."""
@@ -398,8 +476,10 @@ def work(task):
             viol[fp]['count'] += 1
         sql_file_scenario(assign, stats, add0)
         flush_scenario(assign, stats, add0)
+        db_aware_sql_scenario(assign, stats, add0)
         stats['samples'].append({'assign': assign, 'scenarios':
-                                 ['sql-files', 'flush-other']})
+                                 ['sql-files', 'flush-other',
+                                  'db-aware-sql']})
         return stats, viol
     viol = {}
 
@@ -481,6 +561,8 @@ def replay(path):
         sql_file_scenario(r['assign'], stats, add)
     elif r.get('scenario') == 'flush-other':
         flush_scenario(r['assign'], stats, add)
+    elif r.get('scenario') == 'db-aware-sql':
+        db_aware_sql_scenario(r['assign'], stats, add)
     else:
         run_case(r['assign'], [tuple(s) for s in r['steps']], r['order'],
                  stats, add, custom=r.get('custom', False),
